@@ -5,7 +5,7 @@ Encoding of an argument by declared type (all integers on one line):
   abstract interface → see ABS_PARSERS of the specs | object → the arguments of its (translated) constructor
 Answer: `OK <canonical value>` / `ERR <PythonExceptionName>` (canonical: py2lean_selftest.canon)."""
 from py2lean_types import (TInt, TBool, TStr, TNone, TRange, TErased, TList, TOpt, TTuple, TDict, TObj, TAbs, TExc,
-                           TUnion, TVar, THet, TBuilder, resolve, proj)
+                           TUnion, TVar, THet, TBuilder, TFun, resolve, proj)
 
 
 def ty_json(t):
@@ -40,6 +40,8 @@ def ty_json(t):
         return {"k": "union", "a": ty_json(t.a), "b": ty_json(t.b)}
     if isinstance(t, THet):
         return {"k": "het", "e": ty_json(t.elem), "tails": [ty_json(x) for x in t.tails]}
+    if isinstance(t, TFun):
+        return {"k": "fun"}
     if isinstance(t, TBuilder):
         return {"k": "builder", "cls": t.cls, "ctor": ty_json(t.ctor_ty()), "cmd": t.cmd, "args": ty_json(t.cmd_ty())}
     raise ValueError(t)
@@ -72,6 +74,13 @@ def parser(t, reg, specs):
         return out
     if isinstance(t, THet):
         return parser(TTuple([TList(t.elem)] + t.tails), reg, specs)
+    if isinstance(t, TBuilder):
+        # the state of an effect object at the call: no constructor arguments, an empty log
+        if t.ctor:
+            raise NoDriver("no parser for a builder with constructor arguments")
+        return "(pure ((), ([] : List {})))".format(t.cmd_ty().lean())
+    if isinstance(t, TFun):
+        raise NoDriver("function-typed parameter")
     if isinstance(t, TAbs):
         p = getattr(specs, "ABS_PARSERS", {}).get(t.name)
         if p is None:
@@ -166,20 +175,30 @@ def handler(i, fn, reg, specs):
     call_self = None
     cm = True
     if fn.self_ty is not None and not fn.is_init:
-        call_self, cm = construct(fn.cls, "c", lines, reg, specs)
+        if isinstance(fn.self_ty, TBuilder):
+            call_self, cm = "(((), ([] : List {})))".format(fn.self_ty.cmd_ty().lean()), False
+        else:
+            call_self, cm = construct(fn.cls, "c", lines, reg, specs)
     names = []
     for p, t in fn_params(fn):
+        if isinstance(resolve(t), TFun):
+            term = getattr(specs, "DRIVER_CALLS", {}).get((fn.cls, p))
+            if term is None:
+                raise NoDriver("no driver term for the abstract call " + p)
+            names.append(term)
+            continue
         lines.append("let a_{} ← {}".format(p, parser(t, reg, specs)))
         names.append("a_" + p)
     show = shower(fn.ret, "r", reg)
+    fuel = ["1000"] if getattr(fn, "recursive", False) else []
     if call_self is None:
-        call = " ".join([fn.lean] + names)
+        call = " ".join([fn.lean] + fuel + names)
         if fn.monadic:
             body = "pure (fmtExcept (fun r => {}) ({}))".format(show, call)
         else:
             body = "pure (ok ((fun r => {}) ({})))".format(show, call)
     else:
-        call = " ".join([fn.lean, "self"] + names)
+        call = " ".join([fn.lean] + fuel + ["self"] + names)
         inner = "fmtExcept (fun r => {}) ({})".format(show, call) if fn.monadic else "ok ((fun r => {}) ({}))".format(show, call)
         if cm:
             body = "pure (match {} with | .error e => err e | .ok self => {})".format(call_self, inner)
@@ -234,6 +253,7 @@ def manifest(reg, specs):
             "unsupported": fn.unsupported, "driver": getattr(fn, "driver_index", None) == i,
             "no_driver": getattr(fn, "no_driver", None),
             "monadic": fn.monadic, "is_init": fn.is_init, "vararg": fn.vararg,
+            "effect_self": isinstance(fn.self_ty, TBuilder),
             "params": [[p, ty_json(t)] for p, t in fn.params],
             "observers": [[n, ty_json(t), list(how[:2]) + [how[2]]] for n, t, how in fn.observers],
             "ret": ty_json(fn.ret) if fn.ret is not None else {"k": "none"},
